@@ -119,6 +119,32 @@ func gen(r *sim.Rng, tier string) *sim.Case {
 		at := r.N(len(c.Ops) + 1)
 		c.Ops = append(c.Ops[:at:at], append(life, c.Ops[at:]...)...)
 	}
+	if heavy && r.Pct(20) {
+		// the life of a sparse bucket: grown to some hundreds or thousands of members, drained
+		// to a fraction of that (an implementation may give memory back), refilled in ascending
+		// order to the threshold and across it, then given a small value again
+		h1 := highs[r.N(len(highs))]
+		n1 := []int{300, 896, 897, 1024, 1500, 2048, 3000, 4000, 4096}[r.N(9)]
+		keep := []int{1, n1 / 8, n1/4 - 1, n1 / 4, n1/4 + 1, n1 / 2}[r.N(6)]
+		if keep < 1 {
+			keep = 1
+		}
+		st := 100 + r.N(1000)
+		fillTo := []int{4096, 4096, 4097, 4098, 4200}[r.N(5)]
+		life := []sim.Op{
+			{Op: "AddRun", K: h1, V: st, D: n1, Ks: []int{1, r.N(3)}},
+			{Op: "RemoveRun", K: h1, V: st + keep, D: n1 - keep, Ks: []int{1, r.N(3)}}, // the smallest `keep` stay
+			{Op: "AddRun", K: h1, V: st + keep, D: fillTo - keep, Ks: []int{1, 0}},    // ascending, each a new maximum
+			{Op: "Add", K: h1, V: st + fillTo + r.N(50)},                              // one more maximum
+			{Op: "Add", K: h1, V: r.N(st)},                                            // and a value below all
+			{Op: "Contains", K: h1, V: st + fillTo - 1},
+			{Op: "Contains", K: h1, V: st + fillTo - 2},
+			{Op: "Enum", S: []string{"Iter", "Range", "All"}[r.N(3)]},
+		}
+		at := r.N(len(c.Ops) + 1)
+		c.Ops = append(c.Ops[:at:at], append(life, c.Ops[at:]...)...)
+		c.Params["sparse_life"] = 1
+	}
 	// every run ends with all three enumerations, complete
 	for _, s := range []string{"Iter", "Range", "All"} {
 		c.Ops = append(c.Ops, sim.Op{Op: "Enum", S: s})
@@ -357,6 +383,9 @@ func exec(c *sim.Case, out *sim.WorkerOut) (*sim.Violation, bool) {
 	}
 	if twin {
 		out.Probes["twin_instance_used_alternately"]++
+	}
+	if c.P("sparse_life") == 1 {
+		out.Probes["sparse_bucket_drained_to_a_fraction_and_refilled_across_the_threshold"]++
 	}
 	out.Faults["tower_word_drawn"] += smrand.Words
 	if c.P("dist") != 0 {
